@@ -533,7 +533,16 @@ fn fs_specials() -> Vec<f32> {
     COMMON_RATES.iter().copied().filter(|f| *f <= 192000.0).collect()
 }
 
+thread_local! {
+    /// generator-side switch: the C10 workload also asks for frequencies above the sample rate (C10 is about every
+    /// phase the oscillator can reach; C11 and C17 are quantified over [0, sample rate] only)
+    static ABOVE_FS: std::cell::Cell<bool> = const { std::cell::Cell::new(false) };
+}
+
 fn gen_freq(rng: &mut Rng, fs: f32, chaos: bool) -> f32 {
+    if ABOVE_FS.with(|a| a.get()) && rng.chance(0.04) {
+        return (fs as f64 * rng.uniform(1.0, 4.0)) as f32;
+    }
     let step = fs as f64 / TWO24; // frequency of one counter step per tick
     match rng.below(if chaos { 6 } else { 12 }) {
         0 => 0.0,
@@ -570,6 +579,7 @@ fn gen_phase(rng: &mut Rng, chaos: bool) -> f32 {
 
 fn random_run(rng: &mut Rng, prof: &Profile, run: u64, sink: &mut Sink<LfoEngine>) {
     let chaos = prof.chaos;
+    ABOVE_FS.with(|a| a.set(prof.focus == 10));
     let fs = if chaos {
         *rng.pick(&[100.0f32, 192000.0, 192000.0, 44100.0])
     } else if rng.chance(0.6) {
@@ -622,10 +632,12 @@ fn random_run(rng: &mut Rng, prof: &Profile, run: u64, sink: &mut Sink<LfoEngine
                 }
             }
             _ => {
-                // many wraps: a fast oscillator for n cycles
+                // many wraps: a fast oscillator for n cycles (sometimes more than a 16-bit wrap counter holds)
                 let per = rng.range(3, 17) as f64;
+                let n = if rng.chance(0.5) { rng.near_pow2(true) } else { n };
                 t.push(Ev::SetFreq(((fs as f64 / per) as f32).to_bits()));
-                t.push(Ev::Tick((n as f64 * per) as u32 + 5));
+                t.push(Ev::Tick(3));
+                t.push(Ev::TickBlind((n as f64 * per) as u32 + 5));
                 t.push(Ev::SetFreq(gen_freq(rng, fs, chaos).to_bits()));
                 t.push(Ev::Tick(rng.range(2, 40) as u32));
             }
